@@ -65,7 +65,11 @@ def explore_c20(rng, tier, res, deep=False):
             doc = doc_with_all_kinds(rng, rng.choice([1, 2, 3]))
             kind = rng.choice(["valid"] * 5 + ["syntax", "type", "index", "name", "badjson", "badbytes", "deep", "mutant", "rootish", "rootish", "spaced"])
             q = walk_query(rng, doc, g, filters=True) if rng.random() < 0.5 else g.query()
-            if kind == "rootish":
+            FALSY = [{}, [], "", 0, False, None, 0.0, -0.0]
+            if i < 2 * len(FALSY):
+                # every falsy whole document with the root query (once inline, once more through other options)
+                kind, doc, q = "rootish", FALSY[i % len(FALSY)], "$"
+            elif kind == "rootish":
                 # the root node itself / every kind of whole document, empty and scalar ones included
                 doc = rng.choice([{}, [], "", 0, False, None, 0.0, "x", 1, True, [0], {"a": None}, [[]], [{}], -0.0, 1.5, "é😀"])
                 q = rng.choice(["$", "$", "$.*", "$..*", "$[?@]", "$[*]", "$[0]", "$['a']", "$[?@ == 0]", "$ "[:1]])
